@@ -144,3 +144,16 @@ def fixed_offset_seconds(whole_minutes=True):
 def wall_tuple(w):
     dt = T.wall_from_us(w)
     return [dt.year, dt.month, dt.day, dt.hour, dt.minute, dt.second, dt.microsecond]
+
+
+def ym_cancel_args(ints_only=False):
+    """Duration arguments whose years/months are cancelled (exactly, or up to a tiny rest of either sign) by weeks/days/hours: the native
+    timedelta is zero or tiny while the calendar components are not.  A boundary class of its own for everything that consumes a Duration
+    (truthiness, copying, scaling, wording): seeded changes C09-r4 and C14-r4 lived exactly there."""
+    return st.builds(
+        lambda y, mo, split, eps_d, eps_us, how: dict(
+            {"years": y, "months": mo},
+            **({"days": -(365 * y + 30 * mo) + eps_d, "microseconds": eps_us} if how == 0 else
+               {"weeks": -((365 * y + 30 * mo) // 7), "days": -((365 * y + 30 * mo) % 7) + eps_d, "microseconds": eps_us} if how == 1 else
+               {"days": -(365 * y + 30 * mo) + split + eps_d, "hours": -24 * split, "microseconds": eps_us})),
+        st.integers(-6, 6), st.integers(-80, 80), st.integers(-3, 3), st.sampled_from([0, 0, 0, 1, -1]), st.sampled_from([0, 0, 0, 1, -1, 500000]), st.integers(0, 2))
